@@ -163,6 +163,15 @@ def run(c):
         job(("design", "impl_" + name), "PDataImplMC", cfg_text=impl_cfg(PROFILES[prof], ptr, True, True, steps, smin, smax),
             timeout=2400, workers=4 if q else 8, heap="8g")
 
+    if not q:
+        # one operation deeper over the operations that create, expose or hide stale slots
+        deep = ["touch", "remove", "removeif", "ensure", "copy", "moveappend", "sort", "ecopy"]
+        for name, prof, ptr, smin, smax in (("ptr", "ptrslice", True, 0, 1), ("val", "anyslice", False, 1, 2), ("map", "map", False, 1, 2)):
+            pp = dict(PROFILES[prof], ops=[o for o in PROFILES[prof]["ops"] if o in deep], initlens=[0, 3],
+                      preds=[x for x in PROFILES[prof]["preds"] if x in ("first", "evens", "all", "ideven")])
+            job(("design", "impl_%s_deep" % name), "PDataImplMC", cfg_text=impl_cfg(pp, ptr, True, True, 4, smin, smax),
+                timeout=2400, workers=8, heap="8g")
+
     # ------------------------------------------------------------------ 2. model of the pinned CopyTo
     pinned = (("ptr_slots", "ptrslice", True, False, True, 0, 1), ("ptr_unset", "ptrslice", True, True, False, 0, 1),
               ("val_slots", "valslice", False, False, True, 1, 2), ("any_slots", "anyslice_maps", False, False, True, 2, 2),
